@@ -160,8 +160,27 @@ func dump(v data.GetValue) string {
 		if len(n.Args) == 1 {
 			return "(cast " + n.FunName + " " + dump(n.Args[0]) + ")"
 		}
+		if len(n.Args) >= 2 { // the comma-list wrappers of checks/C04.py: h2($a, E)
+			return wrap(n.Args)
+		}
+	case *node.CallLater:
+		return dump(n.CallExpression)
+	case *node.Array: // [$a, E]
+		if len(n.Keys) == 0 {
+			return wrap(n.V)
+		}
+	case *node.EchoStatement: // echo $a, "s", E
+		return wrap(n.Expressions)
 	}
 	return fmt.Sprintf("(other %T)", v)
+}
+
+func wrap(l []data.GetValue) string {
+	s := "(wrap"
+	for _, e := range l {
+		s += " " + dump(e)
+	}
+	return s + ")"
 }
 
 func observe(c Case) (o Obs) {
